@@ -436,3 +436,227 @@ Proof.
   intros cls s Hb. unfold unquote, quote. rewrite N.eqb_refl.
   rewrite (unq_loop_quote_body cls (length s) s [] (le_n _) Hb). reflexivity.
 Qed.
+
+(* ------------------------------------------------------------------ *)
+(* Read after Write                                                    *)
+
+Lemma strip_prefix_cons : forall a p s, strip_prefix (a :: p) (a :: s) = strip_prefix p s.
+Proof. intros. cbn [strip_prefix]. rewrite N.eqb_refl. reflexivity. Qed.
+
+Lemma strip_prefix_nil : forall s, strip_prefix [] s = Some s.
+Proof. reflexivity. Qed.
+
+Lemma strip_prefix_app : forall p s, strip_prefix p (p ++ s) = Some s.
+Proof. induction p as [|a p IH]; intro s; [reflexivity|]. cbn [app]. rewrite strip_prefix_cons. apply IH. Qed.
+
+Lemma strip_prefix_neq : forall a p b s, a <> b -> strip_prefix (a :: p) (b :: s) = None.
+Proof. intros. cbn [strip_prefix]. assert ((a =? b) = false) as -> by lia. reflexivity. Qed.
+
+Lemma split_at_app : forall c a s, ~ In c a -> split_at c (a ++ c :: s) = Some (a, s).
+Proof.
+  induction a as [|x a IH]; intros s H; cbn [app split_at].
+  - rewrite N.eqb_refl. reflexivity.
+  - cbn [In] in H. assert ((x =? c) = false) as -> by lia. rewrite IH by tauto. reflexivity.
+Qed.
+
+Lemma skip_spaces_repeat : forall n c s, c <> 32 -> skip_spaces (repeat 32 n ++ c :: s) = c :: s.
+Proof.
+  induction n as [|n IH]; intros c s H; cbn [repeat app skip_spaces].
+  - assert ((c =? 32) = false) as -> by lia. reflexivity.
+  - apply IH. exact H.
+Qed.
+
+Lemma repeat_app_cons : forall (x : N) n l, repeat x n ++ x :: l = x :: repeat x n ++ l.
+Proof. induction n as [|n IH]; intro l; cbn [repeat app]; [reflexivity|]. f_equal. apply IH. Qed.
+
+Lemma forallb_not_in : forall (P : N -> bool) c l, P c = false -> forallb P l = true -> ~ In c l.
+Proof.
+  intros P c l Hc Hl Hin. rewrite forallb_forall in Hl. apply Hl in Hin. congruence.
+Qed.
+
+Lemma valid_name_facts : forall cls n, valid_name cls n = true ->
+  ~ In 32 n /\ ~ In 10 n /\ exists x n', n = x :: n' /\ x <> 47.
+Proof.
+  intros cls n H. unfold valid_name in H. destruct n as [|x n']; [discriminate|].
+  apply andb_true_iff in H. destruct H as [H _]. apply andb_true_iff in H. destruct H as [H _].
+  apply andb_true_iff in H. destruct H as [H _].
+  split; [|split].
+  - apply (forallb_not_in ident_byte); [reflexivity|exact H].
+  - apply (forallb_not_in ident_byte); [reflexivity|exact H].
+  - exists x, n'. split; [reflexivity|]. cbn [forallb] in H. apply andb_true_iff in H. destruct H as [H _].
+    intros ->. discriminate.
+Qed.
+
+Lemma plain_doc_facts : forall cls d, plain_doc cls d = true -> ~ In 10 d.
+Proof.
+  intros cls d H. unfold plain_doc in H. destruct d as [|x d']; [intros []|].
+  apply andb_true_iff in H. destruct H as [H _]. apply andb_true_iff in H. destruct H as [H _].
+  apply andb_true_iff in H. destruct H as [H _].
+  apply (forallb_not_in (fun b => (32 <=? b) && negb (b =? 127))); [reflexivity|exact H].
+Qed.
+
+(* the text of one spec, re-associated *)
+Lemma spec_line_shape : forall cls pad p rest,
+  spec_line cls pad p ++ rest =
+  doc_line (p_doc p) ++ 9 :: p_name p ++ 32 :: repeat 32 pad ++ 61 :: 32 :: 34 ::
+    quote_body cls 0 (p_value p) ++ 34 :: 10 :: rest.
+Proof.
+  intros. unfold spec_line, quote. change ($" = ") with [32; 61; 32].
+  repeat (rewrite <- app_assoc || rewrite <- app_comm_cons). cbn [app].
+  rewrite repeat_app_cons. reflexivity.
+Qed.
+
+Lemma read_spec_line : forall cls pad p rest,
+  valid_name cls (p_name p) = true -> plain_doc cls (p_doc p) = true -> bytes (p_value p) ->
+  read_spec (spec_line cls pad p ++ rest) = Some (p, rest).
+Proof.
+  intros cls pad [n d v] rest Hn Hd Hv. cbn [p_name p_doc p_value] in *.
+  rewrite spec_line_shape. cbn [p_name p_doc p_value].
+  destruct (valid_name_facts _ _ Hn) as (Hn32 & Hn10 & x & n' & Hnx & Hx47).
+  pose proof (plain_doc_facts _ _ Hd) as Hd10.
+  set (tail := repeat 32 pad ++ 61 :: 32 :: 34 :: quote_body cls 0 v ++ 34 :: 10 :: rest).
+  (* what happens after the doc part *)
+  assert (forall doc : list N,
+    match split_at 32 (n ++ 32 :: tail) with
+    | None => None
+    | Some (name, t1) =>
+        match name with
+        | [] => None
+        | _ =>
+            match strip_prefix $"= " (skip_spaces t1) with
+            | None => None
+            | Some t2 =>
+                match strip_prefix [34] t2 with
+                | None => None
+                | Some t3 =>
+                    match unq_loop 0 t3 with
+                    | None => None
+                    | Some (v0, t4) =>
+                        match strip_prefix [10] t4 with
+                        | None => None
+                        | Some t5 => Some (mkProp name doc v0, t5)
+                        end
+                    end
+                end
+            end
+        end
+    end = Some (mkProp n doc v, rest)) as Hrest.
+  { intro doc. rewrite split_at_app by exact Hn32. rewrite Hnx. rewrite <- Hnx.
+    subst tail. rewrite skip_spaces_repeat by lia.
+    change ($"= ") with [61; 32]. repeat (rewrite strip_prefix_cons || rewrite strip_prefix_nil).
+    rewrite (unq_loop_quote_body cls (length v) v (10 :: rest) (le_n _) Hv).
+    repeat (rewrite strip_prefix_cons || rewrite strip_prefix_nil). reflexivity. }
+  unfold read_spec. destruct d as [|d0 d'].
+  - cbn [doc_line app]. repeat (rewrite strip_prefix_cons || rewrite strip_prefix_nil).
+    change ($"//") with [47; 47]. rewrite Hnx at 1. cbn [app].
+    rewrite strip_prefix_neq by lia. apply Hrest.
+  - unfold doc_line. change ($"// ") with [47; 47; 32]. cbn [app].
+    repeat (rewrite strip_prefix_cons || rewrite strip_prefix_nil).
+    change ($"//") with [47; 47]. repeat (rewrite strip_prefix_cons || rewrite strip_prefix_nil).
+    repeat (rewrite strip_prefix_cons || rewrite strip_prefix_nil).
+    change (d0 :: d' ++ 10 :: 9 :: n ++ 32 :: tail) with ((d0 :: d') ++ 10 :: 9 :: n ++ 32 :: tail).
+    rewrite <- app_assoc. cbn [app].
+    change (d0 :: d' ++ 10 :: 9 :: n ++ 32 :: tail) with ((d0 :: d') ++ 10 :: 9 :: n ++ 32 :: tail).
+    rewrite split_at_app by exact Hd10. repeat (rewrite strip_prefix_cons || rewrite strip_prefix_nil).
+    apply Hrest.
+Qed.
+
+Definition good_prop (cls : N -> N) (p : property) : Prop :=
+  valid_name cls (p_name p) = true /\ plain_doc cls (p_doc p) = true /\ bytes (p_value p).
+
+Lemma spec_line_head : forall cls pad p, exists t, spec_line cls pad p = 9 :: t.
+Proof.
+  intros cls pad p. unfold spec_line, doc_line. destruct (p_doc p); cbn [app]; eexists; reflexivity.
+Qed.
+
+Lemma spec_lines_length : forall cls ps pds, (length ps <= length (spec_lines cls pds ps))%nat.
+Proof.
+  induction ps as [|p ps IH]; intro pds; cbn [spec_lines length]; [lia|].
+  destruct (spec_line_head cls (hd 0%nat pds) p) as [t ->]. rewrite app_length. cbn [length].
+  specialize (IH (tl pds)). lia.
+Qed.
+
+Lemma read_specs_lines : forall cls ps pds fuel,
+  Forall (good_prop cls) ps -> (length ps < fuel)%nat ->
+  read_specs fuel (spec_lines cls pds ps ++ [41; 10]) = Ok ps.
+Proof.
+  induction ps as [|p ps IH]; intros pds fuel Hg Hf; (destruct fuel as [|fuel]; [cbn [length] in Hf; lia|]).
+  - reflexivity.
+  - cbn [spec_lines read_specs]. rewrite <- app_assoc.
+    destruct (spec_line_head cls (hd 0%nat pds) p) as [t Ht].
+    assert (str_eqb (spec_line cls (hd 0%nat pds) p ++ spec_lines cls (tl pds) ps ++ [41; 10]) [41; 10] = false) as ->.
+    { rewrite Ht. reflexivity. }
+    inversion Hg as [|? ? (H1 & H2 & H3) Hg']; subst.
+    rewrite read_spec_line by assumption.
+    rewrite IH; [reflexivity|exact Hg'|cbn [length] in Hf; lia].
+Qed.
+
+Lemma forallb_bytes : forall v, forallb is_byte v = true -> bytes v.
+Proof.
+  intros v H. apply Forall_forall. intros x Hx. rewrite forallb_forall in H. apply H in Hx.
+  unfold is_byte in Hx. lia.
+Qed.
+
+Theorem read_write_with : forall cls pds f,
+  valid_names cls f = true -> plain_docs cls f = true -> byte_values f = true ->
+  read_m (write_with cls pds f) = Ok f.
+Proof.
+  intros cls pds [pkg ps] Hn Hd Hv. unfold valid_names, plain_docs, byte_values in *. cbn [f_pkg f_props] in *.
+  apply andb_true_iff in Hn. destruct Hn as [Hpkg Hn].
+  assert (Forall (good_prop cls) ps) as Hg.
+  { apply Forall_forall. intros p Hp. rewrite forallb_forall in Hn, Hd, Hv.
+    split; [apply Hn; exact Hp|]. split; [apply Hd; exact Hp|]. apply forallb_bytes. apply Hv. exact Hp. }
+  destruct (valid_name_facts _ _ Hpkg) as (_ & Hp10 & _).
+  unfold write_with, read_m. cbn [f_pkg f_props].
+  rewrite strip_prefix_app.
+  change ([10; 10] ++ $"var (" ++ match ps with [] => [] | _ :: _ => 10 :: spec_lines cls pds ps end ++ [41; 10])
+    with (10 :: (10 :: $"var (") ++ match ps with [] => [] | _ :: _ => 10 :: spec_lines cls pds ps end ++ [41; 10]).
+  rewrite split_at_app by exact Hp10.
+  rewrite strip_prefix_app.
+  destruct ps as [|p ps'].
+  - reflexivity.
+  - set (ps := p :: ps') in *.
+    change ((10 :: spec_lines cls pds ps) ++ [41; 10]) with (10 :: spec_lines cls pds ps ++ [41; 10]).
+    assert (str_eqb (10 :: spec_lines cls pds ps ++ [41; 10]) [41; 10] = false) as -> by reflexivity.
+    rewrite strip_prefix_cons, strip_prefix_nil.
+    rewrite read_specs_lines; [reflexivity|exact Hg|].
+    rewrite app_length. pose proof (spec_lines_length cls ps pds). lia.
+Qed.
+
+Theorem read_write : forall cls f,
+  valid_names cls f = true -> plain_docs cls f = true -> byte_values f = true ->
+  read_m (write_m cls f) = Ok f.
+Proof. intros. apply read_write_with; assumption. Qed.
+
+(* ------------------------------------------------------------------ *)
+(* the ordered-map laws in one statement                               *)
+
+Definition map_refines_stmt : Prop := forall f,
+  (forall n, file_get n f = alookup n (abs f)) /\
+  (forall n, file_get n f = None <-> ~ In n (names f)) /\
+  (forall p, In (p_name p) (names f) -> file_add p f = Err $"exists") /\
+  (forall p, ~ In (p_name p) (names f) ->
+     file_add p f = Ok (mkFile (f_pkg f) (f_props f ++ [p])) /\
+     forall n, file_get n (mkFile (f_pkg f) (f_props f ++ [p])) =
+               if str_eqb (p_name p) n then Some (p_value p) else file_get n f) /\
+  (forall n v, ~ In n (names f) -> file_set n v f = Err $"unknown") /\
+  (forall n v, In n (names f) -> exists l1 q l2,
+     f_props f = l1 ++ q :: l2 /\ p_name q = n /\ ~ In n (map p_name l1) /\
+     file_set n v f = Ok (mkFile (f_pkg f) (l1 ++ mkProp n (p_doc q) v :: l2)) /\
+     forall m, file_get m (mkFile (f_pkg f) (l1 ++ mkProp n (p_doc q) v :: l2)) =
+               if str_eqb n m then Some v else file_get m f).
+
+Lemma map_refines : map_refines_stmt.
+Proof.
+  intro f. split; [intro n; apply file_get_alookup|]. split; [intro n; apply file_get_none|].
+  split; [intro p; apply file_add_spec|]. split.
+  { intros p Hp. split; [apply file_add_spec; exact Hp|]. intro n. rewrite file_get_add by exact Hp.
+    destruct (str_eqb (p_name p) n) eqn:E.
+    - apply str_eqb_eq in E. subst n. apply file_get_none in Hp. rewrite Hp. reflexivity.
+    - destruct (file_get n f); reflexivity. }
+  split; [intros n v; apply file_set_spec|].
+  intros n v Hin. destruct (proj2 (file_set_spec n v f) Hin) as (l1 & q & l2 & Hf & Hq & Hni & Hs).
+  exists l1, q, l2. split; [exact Hf|]. split; [exact Hq|]. split; [exact Hni|]. split; [exact Hs|].
+  intro m. rewrite (file_get_set n v (f_pkg f) l1 q l2 m Hq Hni). destruct f as [pkg ps]. cbn [f_pkg f_props] in *.
+  rewrite Hf. reflexivity.
+Qed.
